@@ -107,7 +107,15 @@ def check(res) -> list[tuple[str, str]]:
         stranded_ids.update(s["ids"])
     if res.stranded:
         s = res.stranded[0]
-        out.append(("buffer-not-empty-while-reconnected", f"t={s['t']}: state Reconnected, buffer {s['ids']}"))
+        # mechanism: were these messages appended, while the state was Reconnected, by a buffer_messages task that
+        # had been dropped from `_state_task` alive (the recorded finding) — or were they left in the buffer some
+        # other way (e.g. the switch to Reconnected happened with a non-empty buffer)?
+        by_orphan = s.get("live_orphans", 0) > 0 and set(s["ids"]) <= set(res.q_in_rd)
+        how = "appended-by-orphaned-buffer-task" if by_orphan else "other"
+        out.append((f"buffer-not-empty-while-reconnected:{how}",
+                    f"t={s['t']}: state Reconnected, buffer {s['ids']} (live orphaned buffer tasks: "
+                    f"{s.get('live_orphans', 0)}, appended by a buffer task while Reconnected: "
+                    f"{sorted(set(s['ids']) & set(res.q_in_rd))})"))
 
     # --- loss
     if res.quiescent:
@@ -116,10 +124,19 @@ def check(res) -> list[tuple[str, str]]:
             disconnected = p["state"] in ("Failed", "Disconnected", "Reconnecting") or i in failed_ids \
                 or i in res.buffered_ids
             if disconnected and i not in first_recv and i not in stranded_ids:
-                why = ("its send failed and it was never buffered" if i in failed_ids and i not in res.buffered_ids
-                       else "it was buffered")
-                key = ("failed-send-never-buffered" if i in failed_ids and i not in res.buffered_ids
-                       else "buffered-message-never-delivered")
+                if i in failed_ids and i not in res.buffered_ids:
+                    if i in res.stuck_ids:
+                        how = "handler-waits-for-self-cancelled-state-task"
+                    elif i in res.cancelled_after_fail:
+                        how = "cancelled-with-state-task-before-handling"
+                    else:
+                        how = "other"
+                    why = f"its send failed and it was never buffered ({how})"
+                    key = "failed-send-never-buffered:" + how
+                else:
+                    why = ("it was buffered" if i in res.buffered_ids else
+                           f"it was created while the runner was {p['state']}")
+                    key = "buffered-message-never-delivered"
                 out.append((key, f"message {i} ({p['kind']}{p['run']}) never reached the aggregator although the "
                                  f"runner is back in {res.final_state} with an empty buffer; {why}"))
                 break
